@@ -285,8 +285,12 @@ theorem sign_then_verify (P : Prims) (hwf : WfPrims P) (s jwk : Json) (pay rnd :
         refine ⟨_, rfl, ?_⟩
         simp only [sigBytes_set kvs2 _ (hwf.hmacBytes hs k (pre ++ pay)),
           hwf.hmacLen hs k (pre ++ pay) (family_hmac_hash a.name hs hfam), beq_self_eq_true, Bool.and_self]
-      | ecdsa hs =>
+      | ecdsa crv hs =>
         simp only [hfam] at h3
+        cases hcrv : onAlgCurve crv jwk with
+        | false => simp [hcrv] at h3
+        | true =>
+        simp only [hcrv, Bool.not_true, Bool.false_eq_true, if_false] at h3
         cases hh : P.hash hs with
         | none => simp [hh] at h3
         | some hfun =>
@@ -309,7 +313,7 @@ theorem sign_then_verify (P : Prims) (hwf : WfPrims P) (s jwk : Json) (pay rnd :
                 rcases List.mem_append.mp hx with hx | hx
                 · exact hbr x hx
                 · exact hbs x hx
-              simp only [ecdsaVer, hh, hk, Option.bind_some, Option.map_some]
+              simp only [ecdsaVer, hcrv, Bool.not_true, Bool.false_eq_true, if_false, hh, hk, Option.bind_some, Option.map_some]
               refine ⟨_, rfl, ?_⟩
               simp only [sigBytes_set kvs2 _ hb, List.length_append, hr, hsl]
               have h2l : key.len + key.len = 2 * key.len := by omega
